@@ -11,6 +11,13 @@ Configuration facets besides the sampler assignment: the ORDER in which the user
 ``num_sampling_steps`` dicts list the blocks relative to the joint's parameter order (all permutations), step
 counts given for all / some / no blocks; the block-sampler alphabet contains every class HybridGibbs routes
 through a special path (NUTS) next to the ordinary ones (MH, MALA, Conjugate, LinearRTO, a scripted spy).
+
+Facet "how the initial value of each block is supplied" (every route the two samplers read): HybridGibbs - the
+``initial_point`` of the block's sampler object (constructor argument / attribute assigned afterwards / not given:
+class default), with or without an ``init_point`` attribute on the block densities; cuqi.sampler.Gibbs - the
+``init_point`` attribute of the block's density / nothing (ones), with or without an ``x0`` of their own on the block
+sampler objects.  Crossed with all histories: the FIRST sweep of a run starts from the supplied values, every later
+sweep and every continuation call from the values stored by the previous sweep.
 """
 import itertools
 import math
@@ -22,13 +29,16 @@ from vfw.stream import Stream, Decisions, explore
 PROPERTY = "C09"
 RULE = ("cell = (interface, joint, assignment of {spy, real...} samplers to blocks, num_sampling_steps per block, "
         "order in which the sampling_strategy dict and the num_sampling_steps dict list the blocks relative to the "
-        "joint's parameter order, which blocks have a step count given at all); "
+        "joint's parameter order, which blocks have a step count given at all, HOW the initial value of each block is "
+        "supplied: per block sampler-constructor initial_point / sampler.initial_point attribute / nothing, an "
+        "init_point attribute on the block's density, an x0 on the legacy block sampler objects); "
         "inside a cell ALL operation sequences of the tier's depth are executed (prefix histories are judged at "
         "every operation end, so a depth-3 execution decides its 3 prefixes) and, with MH / MALA / NUTS blocks, all leaves of "
         "the decision tree of their uniform draws inside the stated deviation bound; state = (history, decision "
         "prefix); transition = one block-sampler step on the real code, judged for: which block, how many "
         "transitions per visit (the count configured for THAT block by name, default 1), start point = the block's "
-        "current value, target (log-density, for gradient kernels also gradient, at probes) = joint conditioned on the "
+        "current value (first sweep of the run: the initial value supplied for that block; every later sweep, also the "
+        "first one of a continuation call: the value stored by the previous sweep), target (log-density, for gradient kernels also gradient, at probes) = joint conditioned on the "
         "current others, evaluations the kernel has cached for its start (MH log-density, MALA / NUTS log-density and "
         "gradient), and the move itself against a reference kernel; a cell is non-trivial when at least one sweep "
         "was executed and compared")
@@ -134,7 +144,7 @@ class Model:
             self.kind = {"d": "pos", "x": "vec"}
             self.dim = {"d": 1, "x": n}
             self.hyper = {"d": (1.0, 1e-2)}
-            self.init = None          # library default (ones)
+            self.init = None          # main product: no initial point given (library default)
             self.real = {"d": ["conj", "mh"], "x": ["rto", "mh"]}
         elif name == "gauss2":
             self.order = ["u", "v"]
@@ -147,12 +157,29 @@ class Model:
             self.real = {"u": ["mh"], "v": ["rto", "mh", "nuts", "mala"]}
         else:
             raise ValueError(name)
+        # the values a block is started from wherever the cell SUPPLIES an initial value for it (facet "init")
+        self.ival = (self.init if self.init is not None else
+                     {"x": refs.dyadic_vec(n, k + 4, scale=0.25), "d": np.array([2.0])})
+
+    def decoy(self, b):
+        """A value handed over through a route that must NOT decide where a sweep starts."""
+        if self.kind[b] == "pos":
+            return np.array([3.25])
+        return refs.dyadic_vec(self.dim[b], self.k + 13, scale=0.375)
 
     # ---- CUQIpy side -------------------------------------------------------------------
-    def make_joint(self):
+    def make_joint(self, init_points=None):
+        """init_points: {block: value} set as the `init_point` attribute of that block's density before the joint
+        (and hence the sampler) is built."""
         import cuqi
         from cuqi.distribution import Gamma, Gaussian, JointDistribution
         A = cuqi.model.LinearModel(self.A.copy())
+
+        def joint(*dens):
+            for dn in dens:
+                if init_points and dn.name in init_points:
+                    dn.init_point = np.array(init_points[dn.name], dtype=float, copy=True)
+            return JointDistribution(*dens)
         if self.name in ("hier3", "hier3c"):
             d = Gamma(*self.hyper["d"], name="d")
             l = Gamma(*self.hyper["l"], name="l")
@@ -161,17 +188,27 @@ class Model:
             else:
                 x = Gaussian(self.mx.copy(), cov=lambda d: 1 / d, name="x")
             y = Gaussian(A @ x, cov=lambda l: 1 / l, name="y")
-            return JointDistribution(d, l, x, y)(y=self.y.copy())
+            return joint(d, l, x, y)(y=self.y.copy())
         if self.name == "hier2":
             d = Gamma(*self.hyper["d"], name="d")
             x = Gaussian(self.mx.copy(), prec=lambda d: d, name="x")
             y = Gaussian(A @ x, 0.25, name="y")
-            return JointDistribution(x, d, y)(y=self.y.copy())
+            return joint(x, d, y)(y=self.y.copy())
         B = self.B.copy()
         u = Gaussian(self.mu.copy(), self.Cu.copy(), name="u")
         v = Gaussian(lambda u: B @ u, 0.5, geometry=self.n, name="v")
         y = Gaussian(A @ v, 0.25, name="y")
-        return JointDistribution(u, v, y)(y=self.y.copy())
+        return joint(u, v, y)(y=self.y.copy())
+
+    def init_codes(self, cell):
+        """How the initial value of each block is supplied in this cell (joint order).
+        hybrid: 'given' = initial_point= of the block's sampler object, 'attr' = sampler.initial_point assigned after
+        its construction, 'def' = nothing; legacy: 'dens' = `init_point` attribute of the block's density, 'def' = nothing."""
+        if cell.get("init"):
+            return list(cell["init"])
+        if cell["iface"] == "legacy" or self.init is None:
+            return ["def"] * len(self.order)
+        return ["given"] * len(self.order)
 
     def initial(self, iface):
         if iface == "legacy" or self.init is None:
@@ -366,9 +403,11 @@ def _hybrid_classes():
     return _hybrid_classes._c
 
 
-def _make_hybrid_sampler(kind, block, model, recorder, init, nuts_depth=0):
+def _make_hybrid_sampler(kind, block, model, recorder, code, nuts_depth=0):
+    """code: how the block's initial value is supplied - 'given' (initial_point= of the constructor), 'attr'
+    (sampler.initial_point assigned after construction), 'def' (not at all)."""
     C = _hybrid_classes()[kind]
-    ip = None if init is None else init[block].copy()
+    ip = model.ival[block].copy() if code == "given" else None
     if kind == "mh":
         s = C(scale=MH_SCALE[model.kind[block]], initial_point=ip)
     elif kind == "nuts":
@@ -379,6 +418,8 @@ def _make_hybrid_sampler(kind, block, model, recorder, init, nuts_depth=0):
         s = C(maxit=50, tol=1e-13, initial_point=ip)
     else:
         s = C(initial_point=ip)
+    if code == "attr":
+        s.initial_point = model.ival[block].copy()
     s._vrec = recorder
     s._vblock = block
     return s
@@ -387,16 +428,19 @@ def _make_hybrid_sampler(kind, block, model, recorder, init, nuts_depth=0):
 class LegacyBlock:
     """What cuqi.sampler.Gibbs needs from a block sampler: construct from the conditional, step(x) -> array."""
 
-    def __init__(self, recorder, block, kind, target):
+    def __init__(self, recorder, block, kind, target, x0_decoy=False):
         import cuqi
         self.r, self.block, self.kind, self.target = recorder, block, kind, target
         self.inner = None
+        # x0_decoy: the block sampler object itself is built with an x0 of its own (where its class has one); within
+        # a sweep it must nevertheless start from the block's current value, which Gibbs hands to step(x)
+        kw = {"x0": recorder.model.decoy(block)} if x0_decoy else {}
         if kind == "mh":
-            self.inner = cuqi.sampler.MH(target, scale=MH_SCALE[recorder.model.kind[block]])
+            self.inner = cuqi.sampler.MH(target, scale=MH_SCALE[recorder.model.kind[block]], **kw)
         elif kind == "conj":
             self.inner = cuqi.sampler.Conjugate(target)
         elif kind == "rto":
-            self.inner = cuqi.sampler.LinearRTO(target, maxit=50, tol=1e-13)
+            self.inner = cuqi.sampler.LinearRTO(target, maxit=50, tol=1e-13, **kw)
 
     def step(self, x):
         r = self.r
@@ -423,13 +467,20 @@ def run_history(cell, model, seq, decisions):
     norder = cell.get("norder") or list(range(nb))      # order in which the step-count dict lists the blocks
     recorder = Recorder(model, stream)
     obs = {"ops": [], "refused_at": None, "construct_error": None}
+    codes = model.init_codes(cell)
+    # `init_point` attributes of the block densities: the legacy route of supplying an initial value ('dens'); for
+    # HybridGibbs (which takes initial values from the sampler objects) a decoy on every block
+    if iface == "legacy":
+        dens_init = {b: model.ival[b] for b, c_ in zip(model.order, codes) if c_ == "dens"}
+    else:
+        dens_init = {b: model.decoy(b) for b in model.order} if cell.get("dens_decoy") else {}
     with stream.installed():
         try:
-            joint = model.make_joint()
+            joint = model.make_joint(dens_init)
             if iface == "hybrid":
                 import cuqi
                 samplers = {model.order[i]: _make_hybrid_sampler(cell["assign"][i], model.order[i], model, recorder,
-                                                                 model.init, cell.get("nuts_depth", 0))
+                                                                 codes[i], cell.get("nuts_depth", 0))
                             for i in sorder}
                 nss = {model.order[i]: int(cell["nsteps"][i]) for i in norder if cell["nsteps"][i] is not None}
                 if not nss:
@@ -442,7 +493,8 @@ def run_history(cell, model, seq, decisions):
                 strat = {}
                 for i in sorder:
                     b = model.order[i]
-                    strat[b] = (lambda target, _b=b, _k=cell["assign"][i]: LegacyBlock(recorder, _b, _k, target))
+                    strat[b] = (lambda target, _b=b, _k=cell["assign"][i]:
+                                LegacyBlock(recorder, _b, _k, target, bool(cell.get("x0_decoy"))))
                 G = cuqi.sampler.Gibbs(joint, strat)
         except HarnessError:
             raise
@@ -561,6 +613,18 @@ class Judge:
         ident = list(range(nb))
         permuted = (cell.get("sorder") or ident) != ident or (cell.get("norder") or ident) != ident
         self.order_facet = ",dict-order=permuted" if permuted else ""
+        # facet "how the initial value of each block is supplied" (empty for the cells of the main product)
+        codes = model.init_codes(cell)
+        if cell["iface"] == "legacy":
+            self.init_facet = (",init=density.init_point" if "dens" in codes else
+                               (",init=block-sampler-x0" if cell.get("x0_decoy") else ""))
+        else:
+            self.init_facet = ((",init=varied" if cell.get("init") else "")
+                               + (",density.init_point=decoy" if cell.get("dens_decoy") else ""))
+        for b in model.order:
+            if any(np.array_equal(model.decoy(b), v) for v in (model.ival[b], np.ones(model.dim[b]),
+                                                               np.zeros(model.dim[b]))):
+                raise HarnessError("decoy value of block %r coincides with an initial value" % b)
         # the analytic conditional gradients of the harness against central differences of its own log-joint
         # (exact for these quadratics up to rounding) - a wrong reference must never become a verdict
         for b in model.order:
@@ -585,18 +649,31 @@ class Judge:
             res.refused += 1
             res.outcomes.add("construct-refused:" + obs["construct_error"].split(":")[0])
             return 0
-        cur = model.initial(iface)
-        if iface == "hybrid" and model.init is None:
-            # no initial point given: every sampler class has its own default (ones, zeros for LinearRTO); the
-            # statement does not fix it, so the reference starts from the values the sampler announces
-            cur = {b: obs["initial"][b].copy() for b in model.order}
-        elif iface == "hybrid":
-            for b in model.order:
-                if not np.array_equal(obs["initial"][b], cur[b]):
-                    self.fail("initial-point", "given",
-                              "block %r starts the run at %s although initial_point=%s was given" %
-                              (b, obs["initial"][b], cur[b]))
+        # ---- where the run starts: the initial value SUPPLIED for each block (facet "init") ----
+        codes = model.init_codes(cell)
+        cur = {}
+        for b, code in zip(model.order, codes):
+            if iface == "legacy":
+                # `init_point` attribute of the block's density, else the documented default (ones); compared
+                # strictly with where the first sweep starts (block-start, below)
+                cur[b] = model.ival[b].copy() if code == "dens" else np.ones(model.dim[b])
+            elif code == "def":
+                # no initial point given: every sampler class has its own default (ones, zeros for LinearRTO); the
+                # statement does not fix it, so the reference starts from the value the sampler announces
+                cur[b] = obs["initial"][b].copy()
+            else:
+                got = obs["initial"][b]
+                ok = np.array_equal(got, model.ival[b])
+                if not ok and cell.get("dens_decoy"):
+                    # sampler initial_point AND density.init_point given: the statement does not rank the two routes
+                    ok = np.array_equal(got, model.decoy(b))
+                if not ok:
+                    self.fail("initial-point", "given" + self.init_facet,
+                              "block %r starts the run at %s although initial_point=%s was given (%s)" %
+                              (b, got, model.ival[b], "constructor argument" if code == "given" else
+                               "attribute assigned before HybridGibbs was built"))
                     return 0
+                cur[b] = got.copy()
         run_start = {o: cur[o].copy() for o in model.order}
         cached = {b: model.logjoint(cur) for b in model.order}     # emulation of a never-refreshed logd cache
         stored, warm = [], []
@@ -655,9 +732,14 @@ class Judge:
                                          else ("first-step" if t == 0 else "later-step"))
                                 if kind in SPECIAL_KINDS:
                                     facet = "kind=%s,%s" % (kind, facet)
-                                self.fail("block-start", facet,
-                                          "block %r starts at %s, its current value is %s (op %d sweep %d step %d)" %
-                                          (b, ev["start"], cur[b], oi, sw, t), events_before=ei - 1)
+                                why = ""
+                                if oi == 0 and sweeps_in_op == 0 and t == 0:
+                                    why = "; it is the initial value supplied for the run (%s)" % codes[model.order.index(b)]
+                                elif ev["start"].shape == run_start[b].shape and np.array_equal(ev["start"], run_start[b]):
+                                    why = "; it restarts from the initial value of the run"
+                                self.fail("block-start", facet + self.init_facet,
+                                          "block %r starts at %s, its current value is %s%s (op %d sweep %d step %d)" %
+                                          (b, ev["start"], cur[b], why, oi, sw, t), events_before=ei - 1)
                                 return compared
                             # (2) the target it is handed = joint conditioned on the current others
                             if ev["probe_error"] is not None:
@@ -674,14 +756,25 @@ class Judge:
                             if not close(ev["probes"], ref, 1e-9):
                                 shifted = close(np.array(ev["probes"]) - ev["probes"][0], np.array(ref) - ref[0], 1e-9)
                                 facet = "constant" if shifted else "function"
+                                # which stale values explain it: all (first) or some of the other blocks at the
+                                # values they had at the start of the sweep / operation / run, the rest current
+                                others = [o for o in model.order if o != b]
+                                subsets = [sub for r_ in range(len(others), 0, -1)
+                                           for sub in itertools.combinations(others, r_)]
+                                found = False
                                 for hname, hyp in (("others=sweep-start-values", sweep_start),
                                                    ("others=operation-start-values", op_start),
                                                    ("others=initial-values", run_start)):
-                                    href = [model.cond_logd(b, p, hyp) for p in model.probes(b)[:len(ev["probes"])]]
-                                    if close(ev["probes"], href, 1e-9):
-                                        facet = hname
+                                    for sub in subsets:
+                                        mixed = dict(cur)
+                                        mixed.update({o: hyp[o] for o in sub})
+                                        href = [model.cond_logd(b, p, mixed) for p in model.probes(b)[:len(ev["probes"])]]
+                                        if close(ev["probes"], href, 1e-9):
+                                            facet, found = hname, True
+                                            break
+                                    if found:
                                         break
-                                self.fail("conditional", facet,
+                                self.fail("conditional", facet + self.init_facet,
                                           "target handed to block %r is not the joint conditioned on the current other "
                                           "blocks %s: logd at probes %s, reference %s" %
                                           (b, {o: cur[o].tolist() for o in model.order if o != b}, ev["probes"], ref),
@@ -989,6 +1082,95 @@ def _order_cells(model, tier, k):
                 yield hyb(an, [3, 1, 2][:nb], so, so)
 
 
+def _init_cells(model, tier, k):
+    """The facet 'how the initial value of each block is supplied', crossed with ALL histories of the cell's depth
+    (first call, continuation calls, warm-up + sample, split calls: the op alphabets of the main product).
+    hybrid: per block {initial_point= of the sampler's constructor, sampler.initial_point assigned afterwards, nothing}
+    x {no / a decoy `init_point` attribute on every block density}; legacy: per block {`init_point` attribute of the
+    block's density, nothing} and, for block sampler classes that take one, an x0 of their own given to the block
+    sampler objects (a decoy: Gibbs hands the current value to step)."""
+    quick = tier == "quick"
+    nb = len(model.order)
+    spy = ["spy"] * nb
+    free_depth = 2 if quick else 3           # depth of cells without decision points
+    base = model.init_codes({"iface": "hybrid"})
+    other = "def" if base[0] == "given" else "given"      # the uniform supply the main product does not use
+
+    def hyb(assign, codes, decoy=False, ns=None, nuts_depth=0):
+        nd = _ndec(assign)
+        c = {"iface": "hybrid", "model": model.name, "assign": list(assign),
+             "nsteps": list(ns or [3, 1, 2][:nb]), "depth": 2 if nd else free_depth,
+             "full_tree": 4 if quick else (8 if nd else 0), "cat": k, "init": list(codes)}
+        if decoy:
+            c["dens_decoy"] = True
+        if "nuts" in assign:
+            c["nuts_depth"] = nuts_depth
+        return c
+
+    def leg(assign, codes, x0=False):
+        nmh = sum(1 for a in assign if a == "mh")
+        c = {"iface": "legacy", "model": model.name, "assign": list(assign), "nsteps": None,
+             "depth": 2 if (quick or nmh) else 3, "full_tree": 4 if quick else 8, "cat": k, "init": list(codes)}
+        if x0:
+            c["x0_decoy"] = True
+        return c
+
+    hcodes = [list(c) for c in itertools.product(("given", "attr", "def"), repeat=nb)]
+    lcodes = [list(c) for c in itertools.product(("def", "dens"), repeat=nb)]
+    alt = [["given", "def"][i % 2] for i in range(nb)], [["def", "attr"][i % 2] for i in range(nb)]
+    if model.name != "hier3c":
+        setA = [[r for r in model.real[b] if r not in GRAD_KINDS][0] for b in model.order]
+        one_mh = ["mh"] + ["spy"] * (nb - 1)
+        # ---- HybridGibbs ----
+        for codes in hcodes:                 # all-spy blocks: the complete product of supplies, without / with decoy
+            for decoy in (False, True):
+                if codes != base or decoy:
+                    yield hyb(spy, codes, decoy)
+        if quick:
+            for codes in ([other] * nb,) + alt:
+                yield hyb(setA, codes)
+            yield hyb(setA, base, True)
+            yield hyb(one_mh, [other] * nb, ns=[1] * nb)
+        else:
+            for codes in hcodes:
+                for decoy in (False, True):
+                    if codes != base or decoy:
+                        yield hyb(setA, codes, decoy)
+            for assign in _assignments(model, tier):
+                if "mh" in assign:
+                    for codes in ([other] * nb,) + alt:
+                        yield hyb(assign, codes, ns=[1] * nb)
+        # ---- cuqi.sampler.Gibbs ----
+        for codes in lcodes:
+            if "dens" in codes:
+                yield leg(spy, codes)
+                yield leg(setA, codes)
+        some = [["def"] * nb, ["dens"] * nb]
+        if quick:
+            for codes in some:
+                yield leg(setA, codes, True)
+                yield leg(one_mh, codes, True)
+            yield leg(one_mh, ["dens"] * nb)
+        else:
+            for assign in _assignments(model, tier, "legacy"):
+                if any(a in ("mh", "rto") for a in assign):        # classes with an x0 of their own
+                    for codes in (lcodes if sum(1 for a in assign if a == "mh") <= 1 else some):
+                        yield leg(assign, codes, True)
+                if "mh" in assign:
+                    yield leg(assign, ["dens"] * nb)
+    # ---- gradient kernels (NUTS: the class whose initial_point HybridGibbs itself rewrites at every visit) ----
+    for gk in GRAD_KINDS:
+        if not any(gk in model.real[b] for b in model.order):
+            continue
+        if quick and model.name == "hier3c":
+            continue                    # quick: the 2-block joint only
+        an = [(gk if gk in model.real[b] else "spy") for b in model.order]
+        for codes in (([other] * nb,) if quick else ([other] * nb,) + alt + ([("attr" if c_ == "given" else c_) for c_ in base],)):
+            yield hyb(an, codes, ns=[1] * nb)
+        if not quick:
+            yield hyb(an, base, True, ns=[1] * nb)
+
+
 def cells(tier, seed):
     seen = set()
     for c in _cells(tier, seed):
@@ -1030,6 +1212,8 @@ def _cells(tier, seed):
                        "depth": 2 if (quick or nmh > 1) else 3,
                        "full_tree": 4 if quick else (8 if nmh > 1 else 6), "cat": k}
         for c in _order_cells(model, tier, k):
+            yield c
+        for c in _init_cells(model, tier, k):
             yield c
 
 
